@@ -53,6 +53,11 @@ type doc struct {
 	// object's Props list is the merged result (the first object's properties, then its own). Style "alias": every
 	// property body of the second object that equals one of the first is written as an alias of it.
 	Style string
+	// IDs: what the objects' own `id` fields say ("" = the key they are listed under, as the generator's own test
+	// data does; "none" = no id field; "empty" = id: ""; "same" = every object carries the id "shared"; "swapped" =
+	// each object carries the next object's key). The generator names structs after the keys; the id field has no
+	// bearing on the output.
+	IDs string
 }
 
 func (d doc) yaml() string {
@@ -64,7 +69,18 @@ func (d doc) yaml() string {
 	}
 	b.WriteString("\n")
 	for oi, o := range d.Objects {
-		fmt.Fprintf(&b, "        %s:\n          id: %s\n          properties:", o.Name, o.Name)
+		switch d.IDs {
+		case "none":
+			fmt.Fprintf(&b, "        %s:\n          properties:", o.Name)
+		case "empty":
+			fmt.Fprintf(&b, "        %s:\n          id: \"\"\n          properties:", o.Name)
+		case "same":
+			fmt.Fprintf(&b, "        %s:\n          id: shared\n          properties:", o.Name)
+		case "swapped":
+			fmt.Fprintf(&b, "        %s:\n          id: %s\n          properties:", o.Name, d.Objects[(oi+1)%len(d.Objects)].Name)
+		default:
+			fmt.Fprintf(&b, "        %s:\n          id: %s\n          properties:", o.Name, o.Name)
+		}
 		props := o.Props
 		if d.Style == "merge" && oi == 0 {
 			b.WriteString(" &shared")
@@ -233,6 +249,13 @@ func docsQuick() []doc {
 				same[i].Name = []string{"uno", "dos"}[i]
 			}
 			out = append(out, doc{Objects: []objT{{"alpha", pa}, {"beta", same}}, Style: "alias"})
+		}
+	}
+	// objects whose own id field is missing, empty, shared with the other object, or names the other object
+	for _, ids := range []string{"none", "empty", "same", "swapped"} {
+		for _, pa := range propVariants([]string{"one", "two"}, "beta")[:3] {
+			out = append(out, doc{Objects: []objT{{"alpha", pa}, {"beta", []propT{{Name: "uno", Type: "ref", Ref: "alpha"}}}}, IDs: ids},
+				doc{Objects: []objT{{"beta", pa}, {"alpha", nil}, {"gamma", []propT{{Name: "g", Type: "integer"}}}}, IDs: ids})
 		}
 	}
 	// names that are valid, distinct identifiers but compare equal or adjacent under case folding, prefixes of
